@@ -892,7 +892,10 @@ func (c *compiler) evalCallExpression(node *ast.CallExpression) (interface{}, er
 			return nil, fmt.Errorf("could not call %s function: %w", node.Function, e)
 		}
 		if node.ChainCallee != nil {
-			octx := c.ctx.(*Context)
+			octx, ok := c.ctx.(*Context)
+			if !ok {
+				return nil, fmt.Errorf("expected *Context, got %T", c.ctx)
+			}
 			defer func() {
 				c.ctx = octx
 			}()
@@ -915,7 +918,10 @@ func (c *compiler) evalCallExpression(node *ast.CallExpression) (interface{}, er
 }
 
 func (c *compiler) evalForExpression(node *ast.ForExpression) (interface{}, error) {
-	octx := c.ctx.(*Context)
+	octx, ok := c.ctx.(*Context)
+	if !ok {
+		return nil, fmt.Errorf("expected *Context, got %T", c.ctx)
+	}
 	defer func() {
 		c.ctx = octx
 	}()
@@ -1132,7 +1138,10 @@ func (c *compiler) evalArrayLiteral(node *ast.ArrayLiteral) (interface{}, error)
 }
 
 func (c *compiler) evalIndexCallee(rv reflect.Value, node *ast.IndexExpression) (interface{}, error) {
-	octx := c.ctx.(*Context)
+	octx, ok := c.ctx.(*Context)
+	if !ok {
+		return nil, fmt.Errorf("expected *Context, got %T", c.ctx)
+	}
 	defer func() {
 		c.ctx = octx
 	}()
